@@ -200,7 +200,7 @@ AbsState(sh) ==
                  LET a == SelectSeq(bs[i].ann, LAMBDA x : x[3] = "bi")
                  IN  [q \in 1..Len(a) |-> [p |-> pos[i - 1] + a[q][1], t |-> a[q][2], v |-> a[q][4], ok |-> TRUE]]])
   IN  [secs |-> <<[name |-> ".text", size |-> pos[Len(bs)], blocks |-> [i \in 1..Len(bs) |-> blk(i)],
-                   iann |-> iann, sxout |-> <<>>]>>,
+                   iann |-> iann, sxout |-> <<>>, noaddr |-> 0]>>,
        syms |-> <<>>, fns |-> <<>>]
 
 (***************************************************************************)
@@ -291,9 +291,9 @@ Compatible(rs, r) ==
            /\ (l.blk = r.blk => l.off + l.len <= r.off)
            \* an insertion anchored in a block that the batch deletes wholesale has
            \* no surviving anchor (out of the properties' quantifier, DESIGN F9)
-           /\ ~(r.op = "ins" /\ \E q \in DOMAIN rs : rs[q].blk = r.blk /\ rs[q].op = "del" /\ rs[q].off = 0
+           /\ ~(r.op = "ins" /\ \E q \in DOMAIN rs : rs[q].blk = r.blk /\ rs[q].op \in {"del", "rep"} /\ rs[q].off = 0
                                                        /\ rs[q].len = ShapeSize(shape.sections[1].blocks[r.blk]))
-           /\ ~(r.op = "del" /\ r.off = 0 /\ r.len = ShapeSize(shape.sections[1].blocks[r.blk])
+           /\ ~(r.op \in {"del", "rep"} /\ r.off = 0 /\ r.len = ShapeSize(shape.sections[1].blocks[r.blk])
                  /\ \E q \in DOMAIN rs : rs[q].blk = r.blk /\ rs[q].op = "ins")
 
 TraceReqs(st, rs) ==
